@@ -17,7 +17,7 @@
 From Coq Require Import List ZArith Bool Lia.
 From LMBase Require Import Res.
 From LMDense Require Import DenseModel C19.
-From LMFootprint Require Import FpModel FpProofs.
+From LMFootprint Require Import FpModel FpProofs FpTight FpHistory FpHistoryProofs.
 Import ListNotations.
 Open Scope Z_scope.
 
@@ -206,8 +206,7 @@ Theorem fp_encode_into_sse2_safe : forall L Ld accs,
   Forall (InBounds (ext_encode L Ld)) accs /\ Forall (Aligned balign_slices) accs.
 Proof.
   intros L Ld accs HL H.
-  pose proof (wrap_encode_safe fp_encode_into_sse2 L Ld accs
-                (fun L HL => fp_encode_simd_safe 16 true L ltac:(lia) HL) HL H) as S.
+  pose proof (wrap_encode_safe fp_encode_into_sse2 L Ld accs fp_encode_into_sse2_all_safe HL H) as S.
   split; [exact (safe_in_bounds _ _ _ S) | exact (safe_aligned _ _ _ S)].
 Qed.
 
@@ -230,7 +229,7 @@ Proof.
   intros L HL. repeat split.
   - unfold wrap_encode_raw, wrap_encode. rewrite Z.eqb_refl. reflexivity.
   - exact (safe_in_bounds _ _ _ (fp_encode_simd_safe 32 false L ltac:(lia) HL)).
-  - exact (safe_in_bounds _ _ _ (fp_encode_simd_safe 16 true L ltac:(lia) HL)).
+  - exact (safe_in_bounds _ _ _ (fp_encode_into_sse2_all_safe L HL)).
   - exact (safe_in_bounds _ _ _ (FpProofs.fp_encode_generic_safe L HL)).
 Qed.
 
@@ -271,6 +270,55 @@ Theorem fp_sample_safe : forall C st L,
   layout_ok 1 C st -> 0 <= L ->
   Forall (Safe (ext_dense 1 st (sample_rows C L)) balign_dense) (fp_sample C st L).
 Proof. exact FpProofs.fp_sample_safe. Qed.
+
+(* ---------- the guards are necessary, not only sufficient ---------- *)
+
+(* whenever the row-range guard of the AVX2 f32 / u8 wrappers fires, the kernel entered without
+   it (the wrappers before commit 38882ad) reads past the sequence matrix: for ALL parameters *)
+Theorem fp_range_guard_necessary : forall p accs,
+  sp_nonneg p -> 0 < psst p -> pSR p < pb p + pM p - 1 ->
+  (wrap_score_f32_avx2 false p = Ok (Entered accs) -> exists a, In a accs /\ ~ InBounds (ext_score 4 p) a) /\
+  (wrap_score_u8_avx2 false p = Ok (Entered accs) -> exists a, In a accs /\ ~ InBounds (ext_score 1 p) a).
+Proof.
+  intros p accs Hn Hs Hr. split; intros H.
+  - exact (range_guard_necessary_f32 p accs Hn Hs H Hr).
+  - exact (range_guard_necessary_u8 p accs Hn Hs H Hr).
+Qed.
+
+(* ... and in exactly these cases the repaired wrappers panic before touching anything *)
+Theorem fp_range_guard_panics : forall p,
+  pM p <> 0 -> pM p - 1 <= pwrap p -> pM p <= pL p -> pa p < pb p -> pSR p < pb p + pM p - 1 ->
+  wrap_score_f32_avx2_gather true p = Panic 4 /\ wrap_score_u8_avx2 true p = Panic 4 /\
+  (forall C, wrap_score_sse2 true C p = Panic 4).
+Proof.
+  intros p H0 H1 H2 H3 H4. repeat split; intros; apply range_guard_panics; auto.
+Qed.
+
+(* stripe_avx2: a block that the first conjunct of the loop condition admits and the second
+   (added by commit c26f6ea) rejects would read past the symbol slice: for ALL lengths *)
+Theorem fp_stripe_block_cond_necessary : forall L ost i,
+  0 <= L -> 0 <= i ->
+  stripe_cond true L (stripe_rows L) i = true ->
+  stripe_cond false L (stripe_rows L) i = false ->
+  In (rd B_SRC (31 * stripe_rows L + i) 32 1) (stripe_block (stripe_rows L) ost i) /\
+  ~ InBounds (ext_stripe L ost) (rd B_SRC (31 * stripe_rows L + i) 32 1).
+Proof. exact stripe_block_cond_necessary. Qed.
+
+(* ---------- histories: every kernel entered along ANY sequence of safe API calls is safe ----------
+   (the state records what the guards read: lengths, row counts, wrap rows; FpHistory.v)
+   PARTIAL as the rest of the file: a statement about the footprint model. *)
+Theorem C06_histories_partial : forall K pstF pstU ops s,
+  layout_ok 4 K pstF -> layout_ok 1 K pstU ->
+  hwf s -> Forall hop_wf ops ->
+  Forall (fun e => Forall (InBounds (ev_ext e)) (ev_accs e) /\ Forall (Aligned (ev_al e)) (ev_accs e))
+         (htrace K pstF pstU s ops).
+Proof.
+  intros K pstF pstU ops s HF HU Hs Ho.
+  destruct (htrace_safe K pstF pstU HF HU ops s Hs Ho) as [H _].
+  eapply Forall_impl; [|exact H]. intros e He. split.
+  - exact (safe_in_bounds _ _ _ He).
+  - exact (safe_aligned _ _ _ He).
+Qed.
 
 (* ---------- the executable checker used on the implementation's parameters is sound ---------- *)
 
@@ -320,6 +368,18 @@ Example fp_stripe_nonvacuous :
   all_ok (ext_stripe 2049 32) balign_stripe (fp_stripe_avx2_gen true 2049 32) = false.
 Proof. vm_compute. repeat split; reflexivity. Qed.
 
+Example fp_history_nonvacuous :
+  let ops := [HEncode AAvx2 2049 2049; HStripe AAvx2; HMotif 7; HConfigure 6;
+              HScoreF32 AAvx2 0 65; HArgmaxF32 AAvx2; HScoreU8 AAvx2 3 40; HMaxU8 AAvx2;
+              HScoreF32 AAvx2 0 66; HResize 0 0; HMaxF32 AAvx2] in
+  hwf h0 /\ Forall hop_wf ops /\
+  map (fun e => length (ev_accs e)) (htrace 5 8 32 h0 ops) = [2179; 2145; 1170; 268; 555; 38]%nat /\
+  hfinal 5 8 32 h0 ops = mkH 2049 2049 71 6 7 0 0 0.
+Proof.
+  cbv zeta. split; [unfold hwf, h0; simpl; lia|]. split; [repeat constructor; simpl; lia|].
+  split; vm_compute; reflexivity.
+Qed.
+
 Example fp_strides_x86 :
   map (fun ec => Z.of_nat (stride (fst ec) (snd ec) 32)) [(1, 32); (4, 5); (4, 21); (4, 32); (1, 5); (1, 16); (1, 48); (4, 16); (4, 48)]%nat
   = [32; 8; 24; 32; 32; 32; 64; 16; 48].
@@ -336,3 +396,14 @@ Check fp_score_f32_avx2_gather_aligned : forall p accs,
   sp_nonneg p -> layout_ok 1 32 (psst p) -> layout_ok 4 (pK p) (ppst p) -> layout_ok 4 32 (pdst p) ->
   wrap_score_f32_avx2_gather true p = Ok (Entered accs) ->
   Forall (Aligned balign_mat_src) accs.
+Check C06_histories_partial : forall K pstF pstU ops s,
+  layout_ok 4 K pstF -> layout_ok 1 K pstU ->
+  hwf s -> Forall hop_wf ops ->
+  Forall (fun e => Forall (InBounds (ev_ext e)) (ev_accs e) /\ Forall (Aligned (ev_al e)) (ev_accs e))
+         (htrace K pstF pstU s ops).
+Check fp_range_guard_necessary : forall p accs,
+  sp_nonneg p -> 0 < psst p -> pSR p < pb p + pM p - 1 ->
+  (wrap_score_f32_avx2 false p = Ok (Entered accs) -> exists a, In a accs /\ ~ InBounds (ext_score 4 p) a) /\
+  (wrap_score_u8_avx2 false p = Ok (Entered accs) -> exists a, In a accs /\ ~ InBounds (ext_score 1 p) a).
+Check check_C06_sound : forall ext balign l,
+  all_ok ext balign l = true -> Forall (InBounds ext) l /\ Forall (Aligned balign) l.
